@@ -181,7 +181,7 @@ def feval(e, env):
     if k == "call":
         a = [float(feval(x, env)) for x in e[2]]
         f = {"dexp": "exp"}.get(e[1], e[1])
-        return {"exp": math.exp, "sqrt": math.sqrt, "log": math.log, "log10": math.log10}[f](*a)
+        return {"exp": math.exp, "sqrt": math.sqrt, "log": math.log, "log10": math.log10, "abs": abs}[f](*a)
     if k == "bin":
         l, r = feval(e[2], env), feval(e[3], env)
         if e[1] == "/":
@@ -440,7 +440,74 @@ def run(argv):
         except Exception as e:
             chk.corr_break("driver", None, None, str(e)[:300])
     file_level(chk, rng)
+    compiled_intrinsics(chk, rng)
     return chk.finish()
+
+
+def compiled_intrinsics(chk, rng):
+    """The intrinsic functions a KROME rate may call are emitted verbatim: what they compute is decided by the compiler and
+    by the headers the emitted file includes, not by the text.  A file whose rates call exp, sqrt, log, log10 and abs on
+    non-integral reals of both signs is rendered, EvalRates is compiled as its own translation unit and run, and every k[i] is
+    compared with the Fortran value of its line."""
+    import subprocess
+    from naunet.network import Network
+    from . import cbuild
+    from .common import ROOT
+    from .rendering import render
+    from .ode_checks import reset_species_state
+    lines = ["@var:xa = abs(Tgas/3d2 - 2.5d0)", "@format:idx,R,R,P,rate",
+             "1,H,H,H2,1.0d-10*abs(Tgas/1d2 - 3.7d0)",
+             "2,H,E,H+,3d-11*sqrt(xa) + 1d-12*exp(-1d0*xa)",
+             "3,H2,E,H,1d-12*log10(Tgas)*abs(-0.4d0)",
+             "4,H+,E,H,1d-13*log(Tgas)/abs(0.25d0 - Tgas*1d-3)",
+             "5,H2,H,H,2d-10*abs(xa - 0.75d0)"]
+    frates = [l.split(",")[-1] for l in lines if l[0].isdigit()]
+    temps = [rng.uniform(20.0, 240.0), rng.uniform(260.0, 700.0), rng.uniform(800.0, 2000.0), 315.0]
+    for backend in ("dense", "rosenbrock4"):
+        d = chk.scratch / f"krome-intrinsics-{backend}"
+        d.mkdir(parents=True, exist_ok=True)
+        (d / "net.krome").write_text("\n".join(lines) + "\n")
+        reset_species_state()
+        try:
+            with silenced():
+                net = Network(filelist=[str(d / "net.krome")], fileformats=["krome"], elements=["E", "H"], pseudo_elements=["g"])
+                render(net, backend, d / "out")
+        except Exception as e:
+            chk.violation({"kind": "krome-file-refused", "file": "intrinsics"}, f"a well-formed KROME file was refused: "
+                          f"{type(e).__name__}: {e}", input=lines)
+            return
+        path = d / "out"
+        files = [path / "src" / ("naunet_ode.cpp" if backend == "rosenbrock4" else "naunet_rates.cpp"),
+                 path / "src" / "naunet_physics.cpp", path / "src" / "naunet_constants.cpp", path / "src" / "naunet_utilities.cpp"]
+        if backend != "rosenbrock4":
+            files.append(path / "src" / "naunet_fex.cpp")
+        exe = path / "c12"
+        ok, err = cbuild.build(path, ROOT / "shim" / "c06_driver.cpp", exe, backend, files=[f for f in files if f.exists()],
+                               defines=["C06_ODEINT"] if backend == "rosenbrock4" else [])
+        if not ok:
+            chk.violation({"kind": "does-not-compile", "backend": backend}, "the rendered rates of a KROME file that calls intrinsic "
+                          "functions do not compile", input=lines, error=err[-1200:])
+            continue
+        r = subprocess.run([str(exe)], input="\n".join(repr(t) for t in temps) + "\n", capture_output=True, text=True, timeout=300)
+        out = r.stdout.strip().split("\n")
+        if r.returncode != 0 or len(out) != len(temps):
+            chk.corr_break("compiled-intrinsics", {"backend": backend}, None, f"rc={r.returncode} {r.stderr[-300:]}")
+            continue
+        for t, row in zip(temps, out):
+            got = [float(x) for x in row.split("|")[0].split()]
+            fenv = {"Tgas": t, "Te": t * 8.617343e-5, "T32": t / 300.0, "invT": 1.0 / t}
+            fenv["xa"] = float(feval(fparse("abs(Tgas/3d2 - 2.5d0)")[0], fenv))
+            want = [float(feval(fparse(fx)[0], fenv)) for fx in frates]
+            chk.count(("krome-compiled", backend, t), nontrivial=True)
+            chk.hist["krome-compiled"] += 1
+            bad = [i for i, (g, w) in enumerate(zip(got, want)) if not abs(g - w) <= 1e-9 * max(abs(g), abs(w), 1e-300)]
+            if len(got) != len(want) or bad:
+                i = bad[0] if bad else 0
+                chk.violation({"kind": "compiled-rate-differs", "backend": backend},
+                              f"compiled {backend} EvalRates at Tgas={t!r}: rate {i + 1} `{frates[i]}` has Fortran value {want[i]!r}, the "
+                              f"compiled code gives {got[i] if i < len(got) else None!r} (an intrinsic bound to another function, "
+                              f"e.g. the integer abs)", input=lines, temperature=t)
+                break
 
 
 def file_level(chk, rng):
